@@ -32,7 +32,7 @@ ASSUMPTIONS = [
     "Tree._self_check() is not used (private; asserts node_id == id(node))",
 ]
 
-STRUCT = {"add", "append_child", "prepend_child", "prepend_sibling", "append_sibling", "add_node", "copy_to", "add_tree", "move",
+STRUCT = {"add", "append_child", "prepend_child", "prepend_sibling", "append_sibling", "add_node", "copy_to", "add_tree", "add_own_tree", "own_copy_to", "move",
           "remove", "remove_children", "clear", "del", "filter"}
 
 
